@@ -206,6 +206,20 @@ def build_model_runner():
     p = sh(["timeout", "600", "coqc"] + args + [os.path.join("..", "Extraction.v")], cwd=mldir)
     if p.returncode != 0:
         return False, p.stdout + p.stderr
+    # the only edit of the extracted code: scan_fuel (a pure function of the file content, a unary number of 42*len+512
+    # constructors) is memoised on the physical identity of its argument; Core.sc_next calls it once per lexeme, which made
+    # the runner quadratic in the file size.  Same value, computed once per file.
+    mp = os.path.join(mldir, "Model.ml")
+    src = open(mp).read()
+    if "scan_fuel_compute" not in src and "let scan_fuel data0 =\n" in src:
+        src = src.replace("let scan_fuel data0 =\n",
+                          "let scan_fuel_memo : (Obj.t * nat) option ref = ref None\n"
+                          "let rec scan_fuel data0 =\n"
+                          "  match !scan_fuel_memo with\n"
+                          "  | Some (d, v) when d == Obj.repr data0 -> v\n"
+                          "  | _ -> let v = scan_fuel_compute data0 in scan_fuel_memo := Some (Obj.repr data0, v); v\n"
+                          "and scan_fuel_compute data0 =\n", 1)
+        open(mp, "w").write(src)
     exdir = os.path.join(COQ, "extract")
     mls = ["conv.ml", "registry.ml", "oracle.ml"] + sorted(f for f in os.listdir(exdir) if f.startswith("cmds_") and f.endswith(".ml")) + ["modelrun.ml"]
     new = _hash_file(os.path.join(mldir, "Model.ml"))
